@@ -1,5 +1,5 @@
 """Property -> rules.  Each entry: run(prog, tier) -> (obligations, floors, meta)."""
-from .rules import bounds, arith, index, numctor, cmp, jsonw
+from .rules import bounds, arith, index, numctor, cmp, jsonw, memo, strict
 
 COMMON_TRUST = [
     "rustc nightly HIR/MIR construction, trait resolution and const evaluation",
@@ -152,6 +152,31 @@ def c09(prog, tier):
     return obs, floors, meta
 
 
+def c03(prog, tier):
+    obs, floors, an = merge(memo.run(prog), strict.run(prog))
+    meta = {
+        "level": "other",
+        "explanation": (
+            "Static decision of the structural clauses of call-by-need. At-most-once (R-MEMO, MIR typestate on 5 memo sites: "
+            "Thunk! closures, array literal elements, mapped elements, object fields per (name,layer), cached object-local "
+            "contexts): a cache hit cannot reach the compute call; Pending is InfiniteRecursionDetected; a Pending marker is "
+            "stored first; no RefCell guard is live across the compute call; every non-unwinding exit stores value or error; "
+            "memo cells of Clone owners are behind shared pointers; one locals context per object. Never-unneeded (R-STRICT, "
+            "HIR of the evaluator): all 19 Expr variants have their own arm; Arr/Function/ArrComp/LocalExpr/IfElse/Apply/Obj "
+            "arms and the binding/destructuring/argument/object-member helpers evaluate nothing outside Thunk! closures "
+            "except what the semantics force; tailstrict only moves the evaluate call under `if tailstrict`; &&/|| do not "
+            "touch their right operand in the short-circuit arms. NOT decided: trace multisets; laziness inside stdlib."),
+        "rule": "R-MEMO (MIR: variant-edge reachability, store-on-all-exits, guard liveness) + R-STRICT (HIR: eager evaluate-family calls outside MemoizedClosureThunk::new closures)",
+        "rules": ["R-MEMO", "R-STRICT"],
+        "analysed": an,
+        "decided": "memo typestate of 5 sites; strictness signature of the evaluator",
+        "not_decided": "values; stdlib laziness beyond R-STRICT helpers",
+        "trusted_base": COMMON_TRUST,
+        "assumptions": ["closures passed to anything but MemoizedClosureThunk::new run immediately (eager combinators)"],
+    }
+    return obs, floors, meta
+
+
 def c05(prog, tier):
     obs, floors, an = merge(jsonw.run(prog), numctor.run(prog))
     meta = {
@@ -179,6 +204,7 @@ def c05(prog, tier):
 
 
 PROPS = {
+    "C03": {"run": c03, "thorough_cfgs": ["default", "experimental"]},
     "C05": {"run": c05, "thorough_cfgs": ["default", "experimental"]},
     "C09": {"run": c09, "thorough_cfgs": ["default", "experimental"]},
     "C04": {"run": c04},
